@@ -74,17 +74,23 @@ def build(scratch_repo, out_path, log):
     log.append("R4 write_interleaved_bytes: `vec![0; E]` -> `zeros(E)`")
     wd = desugar(w, inv["write"], [0], log, "write_interleaved_bytes")
     rd = desugar(r2, inv["read"], [0], log, "read_interleaved_bytes")
-    zm = re.search(r"pub\s+fn\s+transform_i32\s*\(value:\s*i32\)\s*->\s*i32\s*\{", src)
-    if not zm:
-        raise LostAnchor("R4: transform_i32 not found")
-    zk = src.index("{", zm.end() - 1)
-    zbody = src[zk + 1:arms.match_brace(src, zk)].strip()
-    if ";" in zbody:
-        raise LostAnchor("R4: transform_i32 is no longer a single expression")
-    log.append("R4 transform_i32: body expression copied verbatim")
+    zbodies = {}
+    for fname, ty, marker in (("transform_i32", "i32", "@@ZZ32@@"), ("transform_i64", "i64", "@@ZZ64@@"),
+                              ("untransform_i32", "i32", "@@UNZZ32@@"), ("untransform_i64", "i64", "@@UNZZ64@@")):
+        zm = re.search(r"pub\s+fn\s+%s\s*\(value:\s*%s\)\s*->\s*%s\s*\{" % (fname, ty, ty), src)
+        if not zm:
+            raise LostAnchor("R4: %s not found" % fname)
+        zk = src.index("{", zm.end() - 1)
+        zbody = src[zk + 1:arms.match_brace(src, zk)].strip()
+        if ";" in zbody:
+            raise LostAnchor("R4: %s is no longer a single expression" % fname)
+        zbodies[marker] = zbody
+        log.append("R4 %s: body expression copied verbatim" % fname)
     with open(os.path.join(CONTRACTS, "verus", "interleave.template.rs")) as fh:
         t = fh.read()
-    t = t.replace("@@WRITE@@", wd).replace("@@READ@@", rd).replace("@@ZZ32@@", zbody)
+    t = t.replace("@@WRITE@@", wd).replace("@@READ@@", rd)
+    for marker, zbody in zbodies.items():
+        t = t.replace(marker, zbody)
     with open(out_path, "w") as fh:
         fh.write(t)
     return out_path
